@@ -50,7 +50,7 @@ def gen_expr(rng, pool, conts, depth=0):
 
 
 def gen_history(rng, profile="mixed", nops=None):
-    nested = profile != "flat"
+    nested = profile not in ("flat", "assign_flat")
     spec, leaves, conts = make_store(rng, nested)
     rank = list(leaves)
     rng.shuffle(rank)
@@ -59,12 +59,12 @@ def gen_history(rng, profile="mixed", nops=None):
     ops = []
     funs = 0
     frozen = False
-    p_cyc = 0.0 if profile in ("flat", "dag", "assign") else 0.06
+    p_cyc = 0.0 if profile in ("flat", "dag", "assign", "assign_flat") else 0.06
     for _ in range(nops):
         k = rng.random()
         t = rng.choice(leaves)
         lower = [p for p in leaves if pos[json.dumps(p)] < pos[json.dumps(t)]]
-        pool = leaves if (rng.random() < p_cyc or not lower) and profile not in ("flat", "dag", "assign") else (lower or None)
+        pool = leaves if (rng.random() < p_cyc or not lower) and profile not in ("flat", "dag", "assign", "assign_flat") else (lower or None)
         if profile == "frozen" and rng.random() < 0.12:
             frozen = not frozen
             ops.append(["freeze"] if frozen else ["unfreeze"])
@@ -83,7 +83,7 @@ def gen_history(rng, profile="mixed", nops=None):
             return p[:len(c)] == c
         okc = [c for c in conts if not inside(t, c) and
                (pool is leaves or all(pos[json.dumps(p)] < pos[json.dumps(t)] for p in leaves if inside(p, c)))]
-        if profile == "assign":
+        if profile in ("assign", "assign_flat"):
             if k < 0.42:
                 ops.append(["set", t, ["plain", rng.randint(-9, 9)]])
             elif k < 0.86 and pool:
